@@ -79,11 +79,14 @@ func handleRetransmitTimeout(
 
 	// RFC 4347 4.2.4.1: retransmissions use exponential backoff, capped at
 	// 60 seconds.
+	// The cap limits the doubling; it does not shorten an interval that was
+	// configured above it or that stays constant because backoff is disabled.
 	if !cfg.DisableRetransmitBackoff {
-		*retransmitInterval *= 2
-	}
-	if *retransmitInterval > time.Second*60 {
-		*retransmitInterval = time.Second * 60
+		doubled := *retransmitInterval * 2
+		if doubled > time.Second*60 {
+			doubled = max(time.Second*60, *retransmitInterval)
+		}
+		*retransmitInterval = doubled
 	}
 
 	return StateSending
